@@ -92,3 +92,12 @@ MUTANTS += [
     dict(prop="C11", name="TimeInterval dispatched to timestamp buffer", file=GO, old="    if geometry.type == \"TimeInterval\":\n        return buffer_interval(", new="    if geometry.type == \"TimeInterval\":\n        return buffer_timestamp("),
     dict(prop="C11", name="timestamp end shrinks", file=GO, old="    end_time = time + time_buffer", new="    end_time = time + time_buffer / 2"),
 ]
+EA = "evaluation/affinity.py"
+MUTANTS += [
+    dict(prop="C06", name="clamp removed (the original defect)", file=EA, old="    return min(intersection / union, 1.0)", new="    return intersection / union"),
+    dict(prop="C06", name="time branch only if both are time geometries", file=EA, old="        geometry1.type in TIME_GEOMETRY_TYPES\n        or geometry2.type in TIME_GEOMETRY_TYPES", new="        geometry1.type in TIME_GEOMETRY_TYPES\n        and geometry2.type in TIME_GEOMETRY_TYPES"),
+    dict(prop="C06", name="time union forgets the intersection", file=EA, old="        (end_time1 - start_time1) + (end_time2 - start_time2) - intersection", new="        (end_time1 - start_time1) + (end_time2 - start_time2)"),
+    dict(prop="C06", name="second geometry prepared with zero time buffer", file=EA, old="    geometry2 = _prepare_geometry(geometry2, time_buffer, freq_buffer)", new="    geometry2 = _prepare_geometry(geometry2, 0, freq_buffer)"),
+    dict(prop="C06", name="LineString no longer buffered", file=EA, old="    data.LineString.geom_type(),\n", new=""),
+    dict(prop="C06", name="area union uses only the first area", file=EA, old="    union = shp1.area + shp2.area - intersection", new="    union = shp1.area + shp1.area - intersection"),
+]
